@@ -34,7 +34,7 @@ func (sw *simWriter) write(p []byte) (n int, err error) {
 	w := sw.w
 	if w.quiet {
 		w.yield(ySiteWrite)
-		sw.qWrites++
+		sw.countQuiet()
 		w.yield(ySiteWriteExit)
 		return len(p), nil
 	}
@@ -109,6 +109,12 @@ func (sw *simWriter) write(p []byte) (n int, err error) {
 	w.yield(ySiteWriteExit)
 	return n, err
 }
+
+// countQuiet is shared by all tasks; in the race world the harness must not
+// create (or appear to lack) happens-before edges of its own.
+//
+//go:norace
+func (sw *simWriter) countQuiet() { sw.qWrites++ }
 
 func (sw *simWriter) close() error {
 	sw.closed++
